@@ -12,3 +12,7 @@ package graph
 //@ func (*Index).Value
 //@   trusted
 //@   pure
+
+// ReversePostorder computes an order of the nodes and changes nothing the caller can see.
+//@ func ReversePostorder
+//@   trusted
